@@ -59,8 +59,8 @@ PROPS = {
             "MantraDex.C10Sys.winv_step", "MantraDex.C10Sys.winv_init", "MantraDex.C10Sys.weights_covered_reachable",
             "MantraDex.NonVacuity.w0_wInv", "MantraDex.NonVacuity.hist_stable", "MantraDex.NonVacuity.instance_weights",
             "MantraDex.C10Eq.exact_step", "MantraDex.C10Eq.exact_init", "MantraDex.C10Eq.total_eq_sum_of_users", "MantraDex.C10Eq.exact_reachable",
-            "MantraDex.C10Eq.whole_history_exact", "MantraDex.C10Eq.pieces_not_exact", "MantraDex.C10Eq.partial_not_exact", "MantraDex.MintInv.mint_wInv", "MantraDex.MintInv.mint_wcore", "MantraDex.MintInv.mint_exact", "MantraDex.MonSoundF.monWeightsCover_sound"],
-        "extra_modules": ["MantraDex.Properties.C10H", "MantraDex.Properties.C10Sys", "MantraDex.Properties.NonVacuity", "MantraDex.Properties.C10Eq", "MantraDex.Properties.MintInv", "MantraDex.Properties.MonSoundF"],
+            "MantraDex.C10Eq.whole_history_exact", "MantraDex.C10Eq.pieces_not_exact", "MantraDex.C10Eq.partial_not_exact", "MantraDex.MintInv.mint_wInv", "MantraDex.MintInv.mint_wcore", "MantraDex.MintInv.mint_exact", "MantraDex.MonSoundF.monWeightsCover_sound", "MantraDex.MonSoundG.monTopupWeight_sound", "MantraDex.MonSoundG.monExitWeight_sound", "MantraDex.MonSoundG.monExitWeight_sound_of_noExp", "MantraDex.MonSoundG.monExitWeight_quiet_on_clamped_owner", "MantraDex.MonSoundG.exit_weights", "MantraDex.MonSoundG.monExitWeight_fires_expired_open"],
+        "extra_modules": ["MantraDex.Properties.C10H", "MantraDex.Properties.C10Sys", "MantraDex.Properties.NonVacuity", "MantraDex.Properties.C10Eq", "MantraDex.Properties.MintInv", "MantraDex.Properties.MonSoundF", "MantraDex.Properties.MonSoundG"],
         "streams": {"farmmath": (6000, 300000), "fm_hist": (120, 3000)},
         "what": "weight curve: weight >= amount, <= 16*amount (multiplier at one year evaluated from the generated coefficients), "
                 "monotone in amount and duration, super-additive in amount (source of F-07); update_weights moves the user's and the "
@@ -281,8 +281,8 @@ PROPS = {
         "module": "MantraDex.Properties.C03", "ns": "MantraDex.C03",
         "theorems": ["cp_gross_formula", "cp_swap_k_mono", "performSwap_k_mono", "cp_round_trip_no_profit", "ss_swap_D_witness",
                      "MantraDex.C03Sys.cp_value_per_lp_step", "MantraDex.C03Sys.cp_value_per_lp_reachable",
-                     "MantraDex.C03NoDrain.no_history_drains_pool", "MantraDex.C03NoDrain.not_both_down", "MantraDex.MonSoundB.monSwapReserves_sound", "MantraDex.NonVac2.monSwapReserves_sound_applies", "MantraDex.NonVac2.no_history_drains_pool_applies"],
-        "extra_modules": ["MantraDex.Properties.C03Sys", "MantraDex.Properties.C03NoDrain", "MantraDex.Properties.MonSoundB", "MantraDex.Properties.NonVacuity2"],
+                     "MantraDex.C03NoDrain.no_history_drains_pool", "MantraDex.C03NoDrain.not_both_down", "MantraDex.MonSoundB.monSwapReserves_sound", "MantraDex.NonVac2.monSwapReserves_sound_applies", "MantraDex.NonVac2.no_history_drains_pool_applies", "MantraDex.MonSoundG.monHopK_sound"],
+        "extra_modules": ["MantraDex.Properties.C03Sys", "MantraDex.Properties.C03NoDrain", "MantraDex.Properties.MonSoundB", "MantraDex.Properties.NonVacuity2", "MantraDex.Properties.MonSoundG"],
         "streams": {"swapmath": (4000, 200000), "pm_hist": (120, 3000)},
         "what": "constant product: gross output = floor(Y*o/(X+o)); x*y never decreases through compute_swap / perform_swap for every reserve, "
                 "offer and fee setting incl. zero fees; a swap-and-swap-back round trip never returns more than was put in. THROUGH THE RUNTIME (C03Sys): for every "
@@ -347,8 +347,8 @@ PROPS = {
                      "MantraDex.C06Sys.claim_pays_entries", "MantraDex.C06Sys.entry_shape",
                      "MantraDex.C07Sys.owed_frozen_partial", "MantraDex.C07Sys.claim_never_exhausted", "MantraDex.C07Sys.claimed_eq_ledger",
                      "MantraDex.C07Q.query_eq_claim_partial", "MantraDex.C07Q.query_nonempty_claim_pays_or_refuses_partial",
-                     "MantraDex.C07Q.query_eq_claim_counterexample", "MantraDex.MonSoundD.monClaim_sound_partial", "MantraDex.MonSoundD.monClaim_sound_of_invariants", "MantraDex.NonVac2.query_eq_claim_partial_applies"],
-        "extra_modules": ["MantraDex.Properties.C07Split", "MantraDex.Properties.C06Sys", "MantraDex.Properties.C07Sys", "MantraDex.Properties.C07Q", "MantraDex.Properties.MonSoundD", "MantraDex.Properties.NonVacuity2"],
+                     "MantraDex.C07Q.query_eq_claim_counterexample", "MantraDex.MonSoundD.monClaim_sound_partial", "MantraDex.MonSoundD.monClaim_sound_of_invariants", "MantraDex.NonVac2.query_eq_claim_partial_applies", "MantraDex.MonSoundG.monTopupWeight_sound_any_sender"],
+        "extra_modules": ["MantraDex.Properties.C07Split", "MantraDex.Properties.C06Sys", "MantraDex.Properties.C07Sys", "MantraDex.Properties.C07Q", "MantraDex.Properties.MonSoundD", "MantraDex.Properties.NonVacuity2", "MantraDex.Properties.MonSoundG"],
         "streams": {"fm_hist": (160, 4000)},
         "also_tags": ["C06-overpaid", "C10-weight-misattributed"],   # C07 says "never more": the ledger monitor's over-payment tag decides C07 as well
         "what": "refinement core: the user scan and the total-weight scan of the compacted history compute the ledger's weight in effect (Spec.weightAt); "
@@ -373,8 +373,8 @@ PROPS = {
                      "MantraDex.C15Sys.positions_change_only_by_owner_tx_partial", "MantraDex.C15Sys.new_positions_belong_to_signer_partial",
                      "MantraDex.C08Tx.create_position_tx_effect", "MantraDex.C08Tx.expand_position_tx_effect",
                      "MantraDex.C08Tx.close_position_tx_effect_general", "MantraDex.C08Tx.close_position_tx_effect_partial",
-                     "MantraDex.PosTx.Cx.close_zero_counterexample", "MantraDex.MonSoundC.monWithdrawPosAccept_sound", "MantraDex.MonSoundC.monWithdrawPos_normal_sound", "MantraDex.MonSoundE.monCloseExpiry_sound"],
-        "extra_modules": ["MantraDex.Properties.C08Sys", "MantraDex.Properties.C15Sys", "MantraDex.Properties.C08Tx", "MantraDex.Properties.MonSoundC", "MantraDex.Properties.MonSoundE"],
+                     "MantraDex.PosTx.Cx.close_zero_counterexample", "MantraDex.MonSoundC.monWithdrawPosAccept_sound", "MantraDex.MonSoundC.monWithdrawPos_normal_sound", "MantraDex.MonSoundE.monCloseExpiry_sound", "MantraDex.MonSoundG.monTopupBacked_sound", "MantraDex.MonSoundG.withdraw_only_owner_tx"],
+        "extra_modules": ["MantraDex.Properties.C08Sys", "MantraDex.Properties.C15Sys", "MantraDex.Properties.C08Tx", "MantraDex.Properties.MonSoundC", "MantraDex.Properties.MonSoundE", "MantraDex.Properties.MonSoundG"],
         "streams": {"fm_hist": (160, 4000)},
         "what": "a non-emergency withdrawal is accepted only from the owner, for a closed position whose unlock instant (close time + unlocking "
                 "duration, boundary second included) is reached, pays exactly the recorded amount and deletes the position; an emergency request after "
@@ -469,8 +469,8 @@ PROPS = {
                      "MantraDex.C12Sys.swap_tx_within_slippage", "MantraDex.C12Sys.route_tx_min_receive", "MantraDex.C20Tx.swap_tx_belief_price",
                      "MantraDex.C13Tx.provide_tx_within_tolerance", "MantraDex.C13Tx.provide_tx_within_tolerance_locked",
                      "MantraDex.C13Tx.provide_tx_tolerance_monotone", "MantraDex.C13Tx.provide_tx_tolerance_monotone_any",
-                     "MantraDex.C13Tx.provide_tx_tolerance_above_one_refused_partial", "MantraDex.C13Tx.provide_tx_tolerance_above_one_unchanged", "MantraDex.MonSoundC.monCpSlippage_sound", "MantraDex.NonVac2.provide_tx_within_tolerance_applies", "MantraDex.NonVac2.provide_tx_tolerance_monotone_applies", "MantraDex.NonVac2.tol1_refuses"],
-        "extra_modules": ["MantraDex.Properties.C12Sys", "MantraDex.Properties.C20Tx", "MantraDex.Properties.C13Tx", "MantraDex.Properties.MonSoundC", "MantraDex.Properties.NonVacuity2"],
+                     "MantraDex.C13Tx.provide_tx_tolerance_above_one_refused_partial", "MantraDex.C13Tx.provide_tx_tolerance_above_one_unchanged", "MantraDex.MonSoundC.monCpSlippage_sound", "MantraDex.NonVac2.provide_tx_within_tolerance_applies", "MantraDex.NonVac2.provide_tx_tolerance_monotone_applies", "MantraDex.NonVac2.tol1_refuses", "MantraDex.MonSoundG.monMinReceive_sound"],
+        "extra_modules": ["MantraDex.Properties.C12Sys", "MantraDex.Properties.C20Tx", "MantraDex.Properties.C13Tx", "MantraDex.Properties.MonSoundC", "MantraDex.Properties.NonVacuity2", "MantraDex.Properties.MonSoundG"],
         "streams": {"swapmath": (4000, 200000), "mintmath": (4000, 200000), "pm_hist": (120, 3000)},
         "what": "swap/route: accept iff slippage/(return+slippage) <= min(tolerance or 1%, 50%) (or, with a belief price, iff return >= expected or "
                 "short by <= tolerance); monotone in the tolerance; > 50% capped; routes deliver >= minimum_receive or fail; constant-product deposit: "
